@@ -199,7 +199,33 @@ func cmdCheck(args []string) int {
 		writeEvidence(prop, tier, seed, nil, nil, expected, order, nil, nil, 1, time.Since(start).Seconds(), nil, 0)
 		return 1
 	}
-	out := runProperty(w, prop, quickSec, fullSec, expected)
+	var out *checkOutcome
+	if prop == "C09" {
+		// zero-annotation sweep: only the functions with claimed groups are translated in the quick tier
+		only := map[string]bool{}
+		for name := range expected {
+			only[w.fnOfObligation(name)] = true
+		}
+		if tier == "thorough" {
+			only = nil
+		}
+		out = &checkOutcome{byName: map[string]*Oblig{}, fnErr: map[string]string{}}
+		var exp map[string]bool
+		if tier != "thorough" {
+			exp = expected
+		}
+		out.results = runSweep(w, only, 3000, exp)
+		for _, r := range out.results {
+			if r.Err != "" {
+				out.fnErr[r.Key] = r.Err
+			}
+			for _, o := range r.Obls {
+				out.byName[o.Name] = o
+			}
+		}
+	} else {
+		out = runProperty(w, prop, quickSec, fullSec, expected)
+	}
 
 	// known findings first
 	kfByObl := map[string]KnownFinding{}
@@ -251,7 +277,7 @@ func cmdCheck(args []string) int {
 				}
 			}
 			if n == 0 {
-				fn := name[:strings.Index(name, "/")]
+				fn := w.fnOfObligation(name)
 				if _, bad := out.fnErr[fn]; bad || strings.HasSuffix(name, "@*") {
 					expanded = append(expanded, name)
 				}
@@ -267,10 +293,7 @@ func cmdCheck(args []string) int {
 		}
 		o := out.byName[name]
 		if o == nil {
-			fn := name
-			if i := strings.Index(name, "/"); i >= 0 {
-				fn = name[:i]
-			}
+			fn := w.fnOfObligation(name)
 			reason := "obligation is no longer generated"
 			if e, ok := out.fnErr[fn]; ok {
 				reason = e
@@ -581,4 +604,27 @@ func loopBroken(r *FuncResult) bool {
 		}
 	}
 	return false
+}
+
+// fnOfObligation: the function key an obligation name belongs to (keys themselves contain slashes).
+func (w *World) fnOfObligation(name string) string {
+	best := ""
+	for i := 0; i < len(name); i++ {
+		if name[i] != '/' {
+			continue
+		}
+		k := name[:i]
+		if _, ok := w.funcs[k]; ok && len(k) > len(best) {
+			best = k
+		} else if _, ok := w.contracts[k]; ok && len(k) > len(best) {
+			best = k
+		}
+	}
+	if best == "" {
+		if i := strings.Index(name, "/"); i >= 0 {
+			return name[:i]
+		}
+		return name
+	}
+	return best
 }
